@@ -135,6 +135,8 @@ impl Bin {
                     let body_instrs_nested: Result<Vec<Vec<Instr>>> = ev
                         .body
                         .iter()
+                        // comments parse to Expr::None; they are not statements
+                        .filter(|expr| !matches!(expr, Expr::None))
                         .map(|expr| {
                             scope.clear_tmps();
                             compile_expr(expr, &mut scope).map(|t| t.0) // Result<Vec<Instr>>
